@@ -74,3 +74,38 @@ Theorem C12_comparison_is_the_source : forall x0 x1 x2 x3 x4 x5 x6 x7 tx y0 y1 y
   ZV.gen.Pure.greaterDifficulty (Z.of_nat (length x)) x7 (Z.of_nat (length y)) y7 x6 y6 x5 y5 x4 y4 x3 y3 x2 y2 x1 y1 x0 y0
   = GoSem.Ok (greater x y).
 Proof. exact greater_is_source. Qed.
+
+(* the plasma decision the theorems above are about is the code: vm.AvailablePlasma (vm/plasma.go) and vm.enoughPlasma
+   (vm/vm.go) as translated by go2coq on every run; store reads, GetBasePlasmaForAccountBlock, IsEmbeddedAddress and the
+   result of AddChainPlasma are inputs of the translations. C12_source_accept_sound restates C12_plasma_sound directly
+   about the translated source: nil returned for a user block only if the three conditions of the property hold. *)
+Theorem C12_available_is_the_source : forall fa c u,
+  ZV.gen.Pure.AvailablePlasma c 0 fa 0 u 0 =
+  match available fa c u with
+  | None => (0, ZV.gen.Pure.Err_new_got_negative_available_plasma)
+  | Some v => (v, 0)
+  end.
+Proof. exact available_is_source. Qed.
+Theorem C12_available_errors_propagate : forall c e1 fa e2 u e3,
+  e1 <> 0 \/ e2 <> 0 \/ e3 <> 0 -> exists e, e <> 0 /\ ZV.gen.Pure.AvailablePlasma c e1 fa e2 u e3 = (0, e).
+Proof. exact available_errors_propagate. Qed.
+Theorem C12_enough_plasma_is_the_source : forall fa c u base f d tp bp addres,
+  let av := ZV.gen.Pure.AvailablePlasma c 0 fa 0 u 0 in
+  let total := u64 (difficulty_to_plasma d + f) in
+  ZV.gen.Pure.enoughPlasma tp bp false (fst av) (snd av) f d base 0 addres =
+  match enough_plasma fa c u base f d with
+  | PPanic => GoSem.Panic
+  | PErr 1 => GoSem.Ok (ZV.gen.Pure.Err_constants_ErrNotEnoughPlasma, tp, bp)
+  | PErr 2 => GoSem.Ok (ZV.gen.Pure.Err_constants_ErrBlockPlasmaLimitReached, total, bp)
+  | PErr _ => GoSem.Ok (ZV.gen.Pure.Err_constants_ErrNotEnoughTotalPlasma, total, base)
+  | POk t b _ => GoSem.Ok (addres, t, b)
+  end.
+Proof. exact enough_plasma_is_source. Qed.
+Theorem C12_source_accept_sound : forall fa c u base f d tp bp total b,
+  0 <= c <= u -> 0 <= f < two64 -> 0 <= d < two64 ->
+  let av := ZV.gen.Pure.AvailablePlasma c 0 fa 0 u 0 in
+  ZV.gen.Pure.enoughPlasma tp bp false (fst av) (snd av) f d base 0 0 = GoSem.Ok (0, total, b) ->
+  b = base /\ base <= total <= MaxPlasmaForAccountBlock /\ total = f + difficulty_to_plasma d /\
+  (u - c) + f <= fused_to_plasma fa.
+Proof. exact source_accept_sound. Qed.
+
